@@ -343,6 +343,19 @@ type cfg struct {
 	// buf.yaml in this order. DisableBuiltin writes `disable_builtin: true` into the section.
 	Plugins        []string `json:"plugins,omitempty"`
 	DisableBuiltin bool     `json:"disable_builtin,omitempty"`
+	// Modules (part M): all module directories of the v2 workspace in document order (ModuleDir is the one the
+	// configuration is judged for; nil = the workspace consists of ModuleDir alone). Neighbours: every OTHER module
+	// carries a module-level section of its own (a decoy rule and an ignore path inside that module).
+	Modules    []string `json:"modules,omitempty"`
+	Neighbours bool     `json:"neighbour_sections,omitempty"`
+}
+
+// neighbourDecoy is the rule the module-level sections of the other modules select (part M).
+func neighbourDecoy(kind string) string {
+	if kind == "breaking" {
+		return "ENUM_VALUE_NO_DELETE"
+	}
+	return "COMMENT_ENUM"
 }
 
 // sectionEmpty: the configuration writes no key into its lint / breaking section.
@@ -411,14 +424,25 @@ func (c cfg) yaml() string {
 		}
 	}
 	if c.ModuleDir != "" {
-		out += "modules:\n  - path: " + c.ModuleDir + "\n"
-		if c.PerModule && (b.Len() > 0 || len(c.TopUse) > 0) {
-			if b.Len() > 0 {
-				out += "    " + c.Type + ":\n"
-				for _, l := range strings.Split(strings.TrimSuffix(b.String(), "\n"), "\n") {
-					out += "    " + l + "\n"
+		mods := c.Modules
+		if len(mods) == 0 {
+			mods = []string{c.ModuleDir}
+		}
+		out += "modules:\n"
+		for _, m := range mods {
+			out += "  - path: " + m + "\n"
+			if m == c.ModuleDir {
+				if c.PerModule && b.Len() > 0 {
+					out += "    " + c.Type + ":\n"
+					for _, l := range strings.Split(strings.TrimSuffix(b.String(), "\n"), "\n") {
+						out += "    " + l + "\n"
+					}
 				}
+			} else if c.Neighbours {
+				out += fmt.Sprintf("    %s:\n      use:\n        - %q\n      ignore:\n        - %q\n", c.Type, neighbourDecoy(c.Type), m+"/b")
 			}
+		}
+		if c.PerModule && (b.Len() > 0 || len(c.TopUse) > 0) {
 			if len(c.TopUse) > 0 {
 				out += c.Type + ":\n  use:\n"
 				for _, id := range c.TopUse {
@@ -461,6 +485,9 @@ func (c cfg) key() string {
 	}
 	if len(c.Plugins) > 0 || c.DisableBuiltin {
 		k += fmt.Sprintf("|pl=%s|db=%v", strings.Join(c.Plugins, ","), c.DisableBuiltin)
+	}
+	if len(c.Modules) > 0 {
+		k += fmt.Sprintf("|mods=%s|nb=%v", strings.Join(c.Modules, ","), c.Neighbours)
 	}
 	return k
 }
